@@ -10,13 +10,26 @@ open Qhttp QhttpGen.Fs
 theorem dotdot_lit : ([46, 46] : Bytes) = Fs.DOTDOT := rfl
 theorem dotdotslash_lit : ([46, 46, 47] : Bytes) = Fs.DOTDOTSLASH := rfl
 
+/-- the model's decision as one boolean (a fact about the model alone) -/
+theorem served_isSome (t : Fs.Tree) (root path : Bytes) :
+    (Fs.served t root path).isSome =
+      ((Fs.resolve t (Fs.absoluteFilePath root path)).isSome &&
+        !(startsWith Fs.DOTDOTSLASH (Fs.relativeFilePath root path)) && !(Fs.relativeFilePath root path == Fs.DOTDOT)) := by
+  unfold Fs.served
+  simp only []
+  split <;> rename_i h
+  · simp [h]
+  · cases h1 : startsWith Fs.DOTDOTSLASH (Fs.relativeFilePath root path) <;>
+      cases h2 : (Fs.relativeFilePath root path == Fs.DOTDOT) <;> simp_all
+
 theorem absolutePath_eq (fe : FsHandler.FsEnv) (path a0 : Bytes) :
     (FilesystemHandlerPrivate_absolutePath fe path a0).1 = (Fs.served fe.tree fe.root path).isSome ∧
     (FilesystemHandlerPrivate_absolutePath fe path a0).2 = Fs.absoluteFilePath fe.root path := by
-  unfold FilesystemHandlerPrivate_absolutePath Fs.served
+  rw [served_isSome]
+  unfold FilesystemHandlerPrivate_absolutePath
   unfold_fs_helpers
   simp only [dotdot_lit, dotdotslash_lit, Fx.exists]
-  cases h : Fs.resolve fe.tree (Fs.absoluteFilePath fe.root path) <;> simp <;> grind
+  refine ⟨?_, ?_⟩ <;> grind
 
 /-- where it says yes, the location served is where the absolute name leads -/
 theorem served_loc (fe : FsHandler.FsEnv) (path : Bytes) (loc : List Bytes)
